@@ -164,3 +164,7 @@ pub fn before_lock(m: &parking_lot::Mutex<()>) {
 pub fn site_ev(id: usize, a: usize, b: usize, c: usize) {
     at(SITE, &[id, a, b, c]);
 }
+
+pub use crate::map::inspect::{
+    consts, load_factor, resize_stamp, BinInfo, Consts, NodeInfo, Snapshot, TableInfo, TreeLinks,
+};
